@@ -49,12 +49,14 @@ def check_node(node):
     if m.indexable and m.sized and not m.has_raise and not m.int_taint and not m.unordered:
         # "iteration never consumes or alters a dataset" - also not after the dataset was used out of order
         # (back to front by index, which fills lazy caches in a non-sequential order)
+        # on a FRESH build, so that lazy caches are filled back to front before the first iteration
+        ds2, _ = progcheck.build_checked(node)
         for i in range(m.n - 1, -1, -1):
             try:
-                ds[i]
+                ds2[i]
             except Exception:
                 break
-        got, exc, exhausted = observe.take(lambda: ds, m.n + 3)
+        got, exc, exhausted = observe.take(lambda: ds2, m.n + 3)
         observe.check_stream(got, exc, exhausted, m, node['op'], 'iter-after-random-access')
     return m
 
